@@ -487,8 +487,11 @@ func Check() *engine.Check {
 			"x forward_to absent/present, plus every single step referencing an unknown mechanism or carrying a rejected override and conditional " +
 			"steps; through the real rule factory, rule-set processor, repository and executor with a scripted mechanism factory recording the " +
 			"executed mechanisms; oracle: acceptance predicate of the statement, reference effective pipeline (three request modes: first " +
-			"authenticator succeeds, authenticators fall through, authentication fails) and behavioural backtracking test.",
-		Assumptions: []string{"mechanisms are scripted; only which of them run, in which order, is observed"},
+			"authenticator succeeds, authenticators fall through, authentication fails) and behavioural backtracking test. Real part: every ordered " +
+			"pair (thorough: triple) of a menu of 14 rules over REAL mechanisms (production mechanism factory, CEL conditions; valid and malformed " +
+			"overrides and conditions, overrides whose textual rendering coincides) created by one rule factory: each rule is accepted or rejected " +
+			"and behaves according to its own definition whatever was loaded before (also: the same malformed rule again).",
+		Assumptions: []string{"first part: mechanisms are scripted; only which of them run, in which order, is observed"},
 		Shards:      func(string) int { return 16 },
 		Budget: func(tier string) time.Duration {
 			if tier == "thorough" {
@@ -563,9 +566,21 @@ func run(c *engine.Ctx) {
 			}
 		}
 	}
+
+	runReal(c, &idx)
 }
 
 func replay(c *engine.Ctx, raw json.RawMessage) {
+	var probe struct {
+		Part string `json:"part"`
+	}
+
+	if err := json.Unmarshal(raw, &probe); err == nil && probe.Part == "real" {
+		replayReal(c, raw)
+
+		return
+	}
+
 	var cs Case
 	if err := json.Unmarshal(raw, &cs); err != nil {
 		c.Infra("bad replay: %v", err)
